@@ -1,9 +1,9 @@
 SPECIFICATION Spec
 CONSTANTS
-  SpinSync = TRUE
-  ObliqOn = FALSE
+  SpinSync = FALSE
+  ObliqOn = TRUE
   NVals = 2
-  Bug = "none"
+  Bug = "no_compl_on_freq"
 INVARIANT C13_Fresh_Layered
 INVARIANT SyncHolds
 CHECK_DEADLOCK FALSE
